@@ -94,9 +94,7 @@ class Ctx:
     def finish(self) -> None:
         for f in self.findings:
             n = self.known_hits.get(f['sig'], 0)
-            if n:
-                print(f"KNOWN-FINDING: property={self.pid} {f['text']} (sig={f['sig']}, {n} occurrence(s) this run)",
-                      flush=True)
+            print(f"KNOWN-FINDING: property={self.pid} {f['text']} (sig={f['sig']}, {n} occurrence(s) this run)", flush=True)
         cov = dict(self.coverage)
         cov.setdefault('known_finding_hits', dict(self.known_hits))
         ev = {
